@@ -26,6 +26,8 @@ pub mod interpreter;
 pub(crate) mod reader;
 mod state;
 mod types;
+#[cfg(feature = "verif-hooks")]
+pub mod verif_hooks;
 
 pub use state::*;
 
